@@ -219,6 +219,22 @@ void h_id_alloc(void)
   IORA_CANARY("h_id_alloc: returns");
 }
 
+/* ID3 start() (restartable engine): the prologue up to the TLS initialisation - where a "fresh run" would reset state - keeps the id allocator monotone.
+ * INVARIANT of the engine: every id issued so far is < _nextSessionId (ID1/ID2). start() preserves it iff it never lowers _nextSessionId. Writes to the
+ * allocator anywhere else make the run undecided (source scan in plugin.py). */
+void h_id_start(void)
+{
+  TcpEngine E; TcpEngine *self = &E;
+  IORA_TRUE = 1; G_id_store_calls = 0; E._cmdMutex.held = 0; E._running = nondet_bool(); E._cmdsClosed = nondet_bool();
+  __CPROVER_assume(E._nextSessionId >= 1);
+  SessionId n0 = E._nextSessionId; bool running0 = E._running;
+  bool cont = TcpEngine_start_prologue(self);
+  IORA_CANARY("h_id_start: returns");
+  __CPROVER_assert(E._nextSessionId >= n0, "ID3 start() never moves the session-id allocator backwards (ids are not reused after stop() + start())");
+  __CPROVER_assert(!running0 || (!cont && E._nextSessionId == n0 && E._running), "ID3b start() on a running engine changes nothing");
+  __CPROVER_assert(!E._cmdMutex.held && (running0 || !cont || (E._running && !E._cmdsClosed)), "ID3c mutex released; a started engine has its command queue open");
+}
+
 /* ===================== (b) doConnect: failure and completion branches (block targets) =====================
  * From C02: "every session identifier the application has seen (returned by connect ...) receives exactly one close notification".
  *  DC-F  every `return false` branch: the close callback for cr.sid exactly once iff registered, NOTHING inserted (tables, gauge unchanged),
